@@ -4,7 +4,7 @@
 From Verif Require Import Base.Str Gen.Patterns.
 Open Scope N_scope.
 
-(* regex/definitions.go: ##!>\s*include\s+(\S+)(?:\s*--\s*(.*?))?\s*$ *)
+(* regex/definitions.go: ^##!>\s*include\s+(\S+)(?:\s*--\s*(.*?))?\s*$ *)
 Lemma pinned : Gen.Patterns.IncludeRegex_src =
-  [35; 35; 33; 62; 92; 115; 42; 105; 110; 99; 108; 117; 100; 101; 92; 115; 43; 40; 92; 83; 43; 41; 40; 63; 58; 92; 115; 42; 45; 45; 92; 115; 42; 40; 46; 42; 63; 41; 41; 63; 92; 115; 42; 36].
+  [94; 35; 35; 33; 62; 92; 115; 42; 105; 110; 99; 108; 117; 100; 101; 92; 115; 43; 40; 92; 83; 43; 41; 40; 63; 58; 92; 115; 42; 45; 45; 92; 115; 42; 40; 46; 42; 63; 41; 41; 63; 92; 115; 42; 36].
 Proof. reflexivity. Qed.
